@@ -20,6 +20,23 @@ def world_for(src, tier):
     w.guarded[('ThreadSafeAttribute', '_is_atomic')] = '_lock'
     w.guarded[('ThreadSafeAttribute', '_value')] = '_lock'
     w.pytype_overrides[('ThreadSafeAttribute', '_lock')] = 'RLock'
+
+    def dict_access(it, obj, how):
+        # the stored value lives in the instance's __dict__ and is guarded by the attribute lock
+        c = it.c
+        lock = c.pyghost.get('value_lock')
+        if lock is None or getattr(it, 'guard_off', False):
+            return
+        if not any(obj.e.eq(d) for d in c.pyghost.get('instance_dicts', [])):
+            return
+        if how == 'read':
+            # a plain read is one atomic dict access and may happen anywhere; the read half of an augmented assignment
+            # must happen inside the critical section it keeps open (checked by the statement-shape targets)
+            c.pyghost['value_read_with_lock_held'] = c.hget(lock, 'held') > 0
+            return
+        c.prove('%s:guarded/%s-of-the-stored-value-holds-_lock' % (it.where(), how), c.hget(lock, 'held') > 0,
+                tags=('lock',), assume_after=False)
+    w.hooks['dict_access'] = dict_access
     w.pytype_overrides[('nt:FrameData', 'lines')] = 'list<str>'
     return w
 
@@ -48,6 +65,7 @@ def make_attr(it, in_progress='any'):
     def invariant(it_):
         return it_.c.hget(d, '_is_atomic')
     c.pyghost[('monitor', lock.e.sexpr())] = (on_enter, invariant)
+    c.pyghost['value_lock'] = lock
     return d, lock
 
 
@@ -56,6 +74,7 @@ def instance(it, name):
     i = c.fresh_ref(name, 'instance')
     dct = c.fresh_ref(name + '_dict', 'dict')
     c.hset(i, '$dict', dct.e)
+    c.pyghost.setdefault('instance_dicts', []).append(dct.e)
     return i
 
 
@@ -118,6 +137,8 @@ def t_augassign():
         c.assume(nonatomic(sval(ln.e)))
         # the thread enters with the lock free: nobody is mid-operation at the moment it gets the lock
         out1 = run_body(it, method(it, d, '__get__'), [i, SClass('object')])
+        c.prove('augassign:lock/the-old-value-is-read-inside-the-critical-section-that-stays-open',
+                c.pyghost.get('value_read_with_lock_held', z3.BoolVal(False)), tags=('C27',))
         ep1 = c.hget(lock, 'epoch')
         v = c.fresh_ref('computed', None, distinct=False)
         out2 = run_body(it, method(it, d, '__set__'), [i, v])
